@@ -124,6 +124,9 @@ func runC15(c *ev.Case, ctx *lib.Ctx, sc c15Scenario, lc *logCapture) {
 	// virtual time absorbs the accept back-off
 	time.Sleep(5 * time.Second)
 	synctest.Wait()
+	// the application registers one more handler at run time (takes the mux's
+	// write lock: it must not be held by anything the faults left behind)
+	mux.HandleFunc("GAR", func(dc diam.Conn, m *diam.Message) { m.Answer(2001).WriteTo(dc) })
 	// a fresh connection after the faults
 	ln.Offer(conns[sc.K])
 	postIDs := []uint32{0xA001, 0xA002}
